@@ -17,10 +17,11 @@ import (
 
 // Env is shared by all adapters of one harness run.
 type Env struct {
-	Conf *Conf
-	Dir  string // scratch directory under the process cwd; removed by the command when it ends
-	mu   sync.Mutex
-	dbs  []*rawDB
+	Conf  *Conf
+	Dir   string // scratch directory under the process cwd; removed by the command when it ends
+	mu    sync.Mutex
+	dbs   []*rawDB
+	stats map[string]*Stats // per adapter, see stats.go
 }
 
 // rawDB is one physical backend, opened once per adapter and wiped between uses
@@ -60,6 +61,11 @@ func (r *rawDB) get() (kvdb.Store, error) {
 			return r.db, nil
 		}
 		return r.db, wipe(r.db)
+	}
+	if r.db != nil && r.kind == "ldb" && r.uses%256 == 0 {
+		// every wipe leaves tombstones behind that each later iteration has to skip (measured: 9 000 uses of one
+		// database cost 180 s of CPU, almost all of it in goleveldb's merged iterator): start over with a fresh one
+		r.close()
 	}
 	if r.db == nil {
 		var err error
